@@ -388,5 +388,20 @@ theorem replay_composition_fluent (w₀ : World) (hwf : WF w₀) (hgood : Amt.Go
     cases op <;> first | exact distOKI_of_fluent h | exact h) hok
   rw [hdev] at this; exact this
 
+/-! The known finding F14, reproduced in the model (evaluation): on a **Fluent**, `distribute` into two virtual rows of
+    one destination trough column books two dispenses (tracked `[[4950], [50, 0]]`) while the `R;` record — destination
+    range `1;1` — replays to one (`[[4975], [25, 0]]` for the source/destination): `DistFluent` excludes exactly this
+    (`posInj_fluent_*` fail for a trough with several row IDs), `DistEvo` does not need to. -/
+def f14Src : Labware := { name := "S", geom := ⟨1, 1, some 1⟩, minV := 0, maxV := 10000, vols := [5000], comp := [("water",[1])], hist := [] }
+def f14Dst : Labware := { name := "D", geom := ⟨1, 2, some 4⟩, minV := 0, maxV := 10000, vols := [0, 0], comp := [], hist := [] }
+def f14W : World := { cfg := ⟨.fluent, 950, true, false⟩, labs := [f14Src, f14Dst], recs := [], carry := [] }
+def f14Dist : DistArgs := { src := 0, srcCol := 0, dst := 1, dstWells := .vec ["A01", "B01"], vol := ⟨25, false⟩, label := "d" }
+
+#eval (f14W.run [.distribute f14Dist]).2.isNone
+#eval (f14W.run [.distribute f14Dist]).1.labs.map (·.vols)
+#eval ((RState.ofLabs f14W.labs).run .fluent (f14W.run [.distribute f14Dist]).1.recs).map
+    (fun st => st.labs.map (fun L => L.wells.map (·.vol)))
+#eval (f14W.run [.distribute f14Dist]).1.recs.map (fun r => (Rec.render r))
+
 end C01D
 end Robotools
